@@ -719,6 +719,19 @@ def md8(F, R):
     R.require(n >= 1, fn, "fileinfo-literals", "open_file_in_dir must build its FileInfo records as literals (found %d)" % n, fn.loc(0))
 
 
+def _empty_buf_guard(g, argn=2):
+    """the edge is taken exactly when the slice argument is empty: buf.is_empty(), buf.len() == 0, `match buf { [] => ..}`"""
+    from .ev import cmp_forms
+    is_buf = lambda q: strip_refs(q)[:2] == ("arg", argn)
+    if g.kind == "bool" and g.truth is True and g.term[0] == "call" and g.term[1] and g.term[1].endswith("is_empty") and is_buf(g.term[2][0]):
+        return True
+    is_len = lambda q: (q[0] == "call" and q[1] and q[1].endswith("::len") and len(q[2]) == 1 and is_buf(q[2][0])) or (q[0] == "un" and q[1] == "PtrMetadata" and is_buf(q[2]))
+    for (op, a, b, t) in cmp_forms(g):
+        if op == "Eq" and t and is_len(strip_refs(a)) and strip_refs(b)[:2] == ("c", 0):
+            return True
+    return False
+
+
 @rule("IO1", ["C01", "C02"], floor=6,
       doc="embedded-io adapters forward to the same primitives: Read::read -> File::read, Write::write -> File::write then Ok(buf.len()), flush -> File::flush, Seek::seek maps Start/End/Current to seek_from_start / seek_from_end(-offset) / seek_from_current and returns the new offset; errors are propagated")
 def io1(F, R):
@@ -743,7 +756,7 @@ def io1(F, R):
             v = strip_refs(v)
             if v[:2] == ("c", 0):
                 # the empty-buffer shortcut: only under buf.is_empty()
-                okw = okw and guarded(f, b, lambda g: g.kind == "bool" and g.truth is True and g.term[0] == "call" and g.term[1] and g.term[1].endswith("is_empty") and strip_refs(g.term[2][0])[:2] == ("arg", 2))[0]
+                okw = okw and guarded(f, b, _empty_buf_guard)[0]
             else:
                 whole = v[0] == "call" and v[1] and v[1].endswith("slice::len") and strip_refs(v[2][0])[:2] == ("arg", 2)
                 okw = okw and whole and bool(ws) and guarded(f, b, g_try_ok("File::write"))[0]
@@ -757,7 +770,7 @@ def io1(F, R):
                 v = strip_refs(f.term_of_rvalue(d[3], d[1]))
                 # the only literal result is Ok(0) for an empty buffer
                 okr = okr and v[0] == "agg" and v[2] and v[2].endswith("Result::Ok") and strip_refs(v[3][0])[:2] == ("c", 0) and \
-                    guarded(f, d[1], lambda g: g.kind == "bool" and g.truth is True and g.term[0] == "call" and g.term[1] and g.term[1].endswith("is_empty") and strip_refs(g.term[2][0])[:2] == ("arg", 2))[0]
+                    guarded(f, d[1], _empty_buf_guard)[0]
             elif d[0] == "call":
                 okr = okr and path_matches(callee_of(d[2]) or "", "File::read")
         R.require(okr, f, "Read::read:count", "Read::read must hand the caller's whole buffer to File::read and return its result unchanged (Ok(0) only for an empty buffer)", f.loc(0))
